@@ -43,7 +43,7 @@ Proof. exact refused_removal_identity. Qed.
 Print Assumptions c09_refused_removal_identity.
 
 (* ... and over every history of operations, removal attempts (refused or
-   accepted) and additions, an emitted event is offered to pool pi exactly once
+   accepted), additions and restarts of the daemon life, an emitted event is offered to pool pi exactly once
    iff pi is one of the process groups at that moment and is configured for the
    event's class or a superclass: never to a removed pool, and still to a pool
    whose removal was refused. *)
@@ -56,6 +56,15 @@ Theorem c09_routing_groups :
   if subscribed w pi && existsb (fun T => subtype_b t T) (pl_subs p) then 1%nat else 0%nat.
 Proof. exact routing_groups. Qed.
 Print Assumptions c09_routing_groups.
+
+(* A new daemon life (Supervisor.run() after an in-process restart) begins with
+   an empty subscription table: no pool of the previous life is subscribed; by
+   c09_routing_groups (whose histories include restarts) events of the new life
+   are then offered to the pools added in that life only. *)
+Theorem c09_restart_clears_subscriptions :
+  forall w pi, subscribed (clear_callbacks w) pi = false.
+Proof. exact restart_clears. Qed.
+Print Assumptions c09_restart_clears_subscriptions.
 
 (* without removals/additions: the subscription table, the configured types, the
    buffer sizes and maxint are those of the initial pools throughout *)
